@@ -106,6 +106,12 @@ def check_lists(s3, model, rr_model, out, info, fragments=False):
                 out.append(D(f"C11:{name}:no-contact-within-4A", f"{it.nt1.full_name}->{it.nt2.full_name} {cls_obj.value}: no base donor of nt1 within 4.0 A of a {'phosphate' if attr == 'bph' else 'ribose'} oxygen of nt2"))
             elif c not in allowed:
                 out.append(D(f"C11:{name}:class-not-implied", f"{it.nt1.full_name}->{it.nt2.full_name} {cls_obj.value}: contacts imply {sorted(allowed)}"))
+            elif not fragments and ({3, 5} <= K or {7, 9} <= K):
+                must = merged_class_required(rr_model, a, b, accs)
+                if must is not None:
+                    info["two_contact_pairs"] = info.get("two_contact_pairs", 0) + 1
+                    if c != must:
+                        out.append(D(f"C11:{name}:two-contacts-not-merged", f"{it.nt1.full_name}->{it.nt2.full_name} {cls_obj.value}: two separate donor atoms (classes {sorted(K)}) each hold an oxygen of their own and nothing else is in reach - the pair's class is {must}"))
         for (i, j), cnt in per_pair.items():
             if cnt > 1 and not fragments:
                 out.append(D(f"C11:{name}:several-classes-per-pair", f"{rr_model[i].ident}->{rr_model[j].ident} carries {cnt}"))
@@ -182,6 +188,62 @@ def check_outputs(s3, out, info):
     info["outputs_checked"] = info.get("outputs_checked", 0) + 1
 
 
+def merged_class_required(rr_model, a, b, accs):
+    """4 (or 8) when the pair's class can only be the merged one: exactly two donor->oxygen contacts within 4.0 A, both
+    decided, of classes 3 and 5 (7 and 9), on two different donor atoms and two different oxygens, and none of the four
+    atoms has any other donor/acceptor counterpart of another residue within 4.0 A - so no greedy choice, no competing
+    contact and no order of processing can leave one of the two contacts out. None otherwise (the statement is then
+    satisfied by any implied class)."""
+    L = a.letter
+    if L not in geomref.R_DONORS:
+        return None
+    contacts = []
+    for d in geomref.R_DONORS[L]:
+        if d == "O2'" or d not in a.atoms:
+            continue
+        for o in accs:
+            if o not in b.atoms:
+                continue
+            dist = float(np.linalg.norm(a.atoms[d] - b.atoms[o]))
+            if abs(dist - geomref.HB_MAX) <= 1e-3:
+                return None
+            if dist < geomref.HB_MAX:
+                contacts.append((d, o))
+    if len(contacts) != 2 or contacts[0][0] == contacts[1][0] or contacts[0][1] == contacts[1][1]:
+        return None
+    per = []
+    for d, o in contacts:
+        one = geomref.RRes(b.idx, b.chain, b.number, b.icode, b.letter, b.model, {o: b.atoms[o]})
+        lone = geomref.RRes(a.idx, a.chain, a.number, a.icode, a.letter, a.model, {k: v for k, v in a.atoms.items() if k == d or k not in geomref.R_DONORS[L]})
+        K, margin, n = geomref.bph_br_classes(lone, one, [o])
+        if n != 1 or len(K) != 1 or margin <= 1e-3:
+            return None
+        per.append(next(iter(K)))
+    want = {frozenset((3, 5)): 4, frozenset((7, 9)): 8}.get(frozenset(per))
+    if want is None:
+        return None
+
+    def typed(r):
+        acc = set(geomref.R_ACCEPTORS.get(r.letter, [])) | set(geomref.R_PHOSPHATE) | set(geomref.R_RIBOSE)
+        don = set(geomref.R_DONORS.get(r.letter, [])) - acc
+        return acc, don
+
+    for res, name, partner_res, partner in ((a, contacts[0][0], b, contacts[0][1]), (a, contacts[1][0], b, contacts[1][1]),
+                                            (b, contacts[0][1], a, contacts[0][0]), (b, contacts[1][1], a, contacts[1][0])):
+        acc_own, _ = typed(res)
+        is_acc = name in acc_own
+        for other in rr_model:
+            if other.idx == res.idx:
+                continue
+            acc_o, don_o = typed(other)
+            for nm in (don_o if is_acc else acc_o):
+                if nm not in other.atoms or (other.idx == partner_res.idx and nm == partner):
+                    continue
+                if float(np.linalg.norm(res.atoms[name] - other.atoms[nm])) <= geomref.HB_MAX + 1e-3:
+                    return None
+    return want
+
+
 def evaluate(s3, models=(None,), merge=False):
     info = {"bph": 0, "br": 0, "noncanonical": 0, "pairs": 0, "min_margin": float("inf"), "skipped": False}
     out = []
@@ -196,6 +258,13 @@ def evaluate(s3, models=(None,), merge=False):
 
 
 def load_case(case):
+    if case["kind"] == "two-contact":
+        s3 = gen3d.build_two_contact(case)
+        if s3 is None:
+            from rnapolis.tertiary import Structure3D
+
+            return Structure3D([])
+        return s3
     if case["kind"] == "multimodel":
         from rnapolis.tertiary import Structure3D
 
@@ -305,6 +374,12 @@ def plan(tier, seed):
     n = 8 if tier == "quick" else 16
     ex = 20 if tier == "quick" else 400
     specs += [{"kind": "multimodel", "files": corpus.SMALL[:8], "examples": ex, "seed": seed * 1000 + 200 + k} for k in range(n)]
+    # placements with TWO contacts of merging classes (3+5 -> 4, 7+9 -> 8) between one base and one ribose / phosphate
+    for letter in ("G", "C"):
+        for oxy in (["O2'", "O4'"], ["OP1", "OP2"]):
+            for k in range(1 if tier == "quick" else 6):
+                specs.append({"kind": "two-contact", "files": ["1ehz-assembly-1.cif", "4qln.cif"] if tier != "quick" else ["1ehz-assembly-1.cif"], "letter": letter, "oxygens": oxy,
+                              "donors": [k * 3 + seed, k * 3 + 1 + seed] if tier == "quick" else [k * 3 + seed, k * 3 + 1 + seed, k * 3 + 2 + seed]})
     return specs
 
 
@@ -331,6 +406,23 @@ def run_shard(spec) -> ShardResult:
     elif spec["kind"] == "steered-hbond":
         run_hypothesis(PROP_ID, gen3d.st_steered_hbond(files), oracle, seed=spec["seed"], max_examples=spec["examples"],
                        result=res, to_json=c03.to_json, classify=lambda c: (classify(c)[0], list(classify(c)[1]) + [f"steered-{c['what']}-distance"]))
+    elif spec["kind"] == "two-contact":
+        hits = 0
+        for f in files:
+            for dn in spec["donors"]:
+                for swap in (False, True):
+                    for dist in (3.7, 3.95):
+                        for lift in (1.0, 2.0, -2.0):
+                            for phi in range(0, 360, 30):
+                                for order in ("donor-first", "acceptor-first"):
+                                    case = {"kind": "two-contact", "file": f, "letter": spec["letter"], "oxygens": spec["oxygens"], "donor": dn, "acceptor": dn * 7 + 3,
+                                            "swap": swap, "dist": dist, "lift": lift, "phi": phi, "order": order}
+                                    check_case(PROP_ID, oracle, case, res, to_json=c03.to_json)
+                                    info = case.get("_info11", {})
+                                    two = info.get("two_contact_pairs", 0) >= 1
+                                    hits += two
+                                    res.note_case(c03.to_json(case), two, ["two-contact-placement"] + (["two-exclusive-contacts-of-merging-classes:" + spec["oxygens"][0]] if two else []), sample_cap=1 if two else 0)
+        res.extra["two_contact_placements_" + spec["letter"] + "_" + spec["oxygens"][0].replace("'", "p")] = hits
     elif spec["kind"] == "multimodel":
         run_hypothesis(PROP_ID, st_multimodel(files), oracle, seed=spec["seed"], max_examples=spec["examples"],
                        result=res, to_json=c03.to_json, classify=classify)
